@@ -239,7 +239,7 @@ impl<'a> Gen<'a> {
             8,  // 11 failing
             4,  // 12 observe
             6,  // 13 handle
-            4,  // 14 self-nested
+            7,  // 14 self-nested
             3,  // 15 closure-returning do block
             8,  // 16 derive
         ];
@@ -577,7 +577,14 @@ impl<'a> Gen<'a> {
             }
             14 => {
                 let n = self.free_name().unwrap_or_else(|| self.any_name());
-                let e = match self.rng.below(4) {
+                let e = match self.rng.below(7) {
+                    4 | 5 | 6 => {
+                        // the inner assignment to the same name at any evaluated position
+                        let v = self.data(1).0;
+                        let inner = assign(&n, v);
+                        let placed = self.in_position(inner);
+                        assign(&n, placed)
+                    }
                     0 => assign(&n, bin("+", assign(&n, num(1)), num(1))),
                     1 => assign(&n, E::List(vec![assign(&n, num(1)), id(&n)])),
                     2 => assign(&n, cond(E::Bool(true), assign(&n, num(3)), num(4))),
